@@ -245,8 +245,7 @@ BUILT = {
         note="Unspecified and not judged: multi-entry dict iteration order, numeric operator patterns on non-integers, "
              "comparison chains on non-reals, negative multipliers, duplicate names in one pattern, what a failing indexed "
              "update leaves of a stream-valued variable. Known findings: an `or` pattern whose first alternative fails "
-             "after declaring a name leaves it declared (seen as a raise or as a stray binding); a top-level comma "
-             "sequence on the left of := ignores defaults.",
+             "after declaring a name leaves it declared (seen as a raise or as a stray binding).",
         technique="TLA+ spec (Pattern/Types) + TLC bounded enumeration with replay of every (pattern, value) pair / switch / "
                   "annotated-variable transition + TLC trace validation of random patterns and assignment histories"),
     "C14": dict(
